@@ -146,8 +146,7 @@ def helper_value_size_gate(F, fid, bb, org):
         k = mp.try_continue(F, fid, c)
         if k is None or not mp.dominated_by(fn, bb, k):
             continue
-        if not any(any(x.endswith("TransactionBuilderConfig.max_value_size") for x in org.of_operand(a)) for a in fn["bbs"][c.bb]["t"][3]):
-            continue
+        passes_max = any(any(x.endswith("TransactionBuilderConfig.max_value_size") for x in org.of_operand(a)) for a in fn["bbs"][c.bb]["t"][3])
         horg = ff.Origins(F, to)
         oks = [b for b, kind, loc in mp.success_stores(F, to)]
         if not oks:
@@ -160,8 +159,9 @@ def helper_value_size_gate(F, fid, bb, org):
                     l, r = d["lhs"], d["rhs"]
                     lsz = any(x.startswith("call:") and (x.split("@")[0].endswith("::len") or x.split("@")[0].endswith("Value::to_bytes")) for x in l)
                     rsz = any(x.startswith("call:") and (x.split("@")[0].endswith("::len") or x.split("@")[0].endswith("Value::to_bytes")) for x in r)
-                    larg = any(x.startswith("arg:") for x in l) and not lsz
-                    rarg = any(x.startswith("arg:") for x in r) and not rsz
+                    # the limit: the caller's max_value_size handed in as an argument, or read from the config by the helper itself
+                    larg = ((passes_max and any(x.startswith("arg:") for x in l)) or any(x.endswith("TransactionBuilderConfig.max_value_size") for x in l)) and not lsz
+                    rarg = ((passes_max and any(x.startswith("arg:") for x in r)) or any(x.endswith("TransactionBuilderConfig.max_value_size") for x in r)) and not rsz
                     if lsz and rarg and ((d["op"] in ("Gt", "Ge") and edge == "0") or (d["op"] in ("Le", "Lt") and edge != "0")):
                         g = True
                     if rsz and larg and ((d["op"] in ("Lt", "Le") and edge == "0") or (d["op"] in ("Ge", "Gt") and edge != "0")):
